@@ -106,3 +106,18 @@ package ast
 //@ func iface ast.Loop.SetHasContinue
 //@   trusted_contract ast.Loop.SetHasContinue: sets a flag inside the loop node; nothing the contracts read
 //@   pure
+
+// The flag sets a break / continue statement leaves on its target loop: the C
+// generator emits the loop's "break" / "continue" label exactly when the matching deep
+// flag is set, so a deep jump must set its own kind's deep flag and no other kind's.
+//@ func breakFlags
+//@   prop C11
+//@   mode bv
+//@   pure
+//@   ensures (result & FlagsHasBreak) != 0 && ((result & FlagsHasDeepBreak) != 0) == deep && (result & (FlagsHasContinue | FlagsHasDeepContinue)) == 0
+
+//@ func continueFlags
+//@   prop C11
+//@   mode bv
+//@   pure
+//@   ensures (result & FlagsHasContinue) != 0 && ((result & FlagsHasDeepContinue) != 0) == deep && (result & (FlagsHasBreak | FlagsHasDeepBreak)) == 0
